@@ -103,13 +103,14 @@ pub struct CbAd {
     /// hm = 2: handles driven to readiness long ago (the oldest at build time); every third request uses the oldest
     parked: std::collections::VecDeque<Box<dyn Handle>>,
     nmk: u64,
+    sib: Vec<Sibling>,
     hm: u64,
     nops: u64,
     variant: String,
 }
 impl CbAd {
     pub fn new(variant: &str) -> Self {
-        CbAd { h: None, ctl: None, parked: Default::default(), nmk: 0, hm: 0, nops: 0, variant: if variant.is_empty() { "conc".into() } else { variant.into() } }
+        CbAd { h: None, ctl: None, parked: Default::default(), nmk: 0, sib: vec![], hm: 0, nops: 0, variant: if variant.is_empty() { "conc".into() } else { variant.into() } }
     }
 }
 fn q(x: u64) -> f64 {
@@ -134,6 +135,7 @@ impl Adapter for CbAd {
             "ctor": rng.below(2),
             "ord": rng.below(2),
             "hm": rng.below(3),
+            "sib": rng.below(2),
             "base": if rng.pct(40) { 1 + rng.below(3) } else { 0 },
         })
     }
@@ -163,6 +165,9 @@ impl Adapter for CbAd {
         let fallback = |r: Req| -> BoxFuture<'static, Result<Resp, IErr>> { Box::pin(async move { Ok(Resp { serial: 9000 + r.id as u64, req: r.id }) }) };
         use tower::Layer;
         let via_layer = cfg["ctor"].as_u64().unwrap_or(0) == 1;
+        // cfg.sib = 1: a second breaker built from the same layer value sees eight failures (and trips) first
+        self.sib.clear();
+        let sib = cfg["sib"].as_u64().unwrap_or(0) == 1;
         let ctl: Box<dyn Handle>;
         let h: Box<dyn Handle> = if cfg["cls"] == "default" {
             // cfg.base: start from a preset; every setting of it is overridden by opts!
@@ -172,7 +177,13 @@ impl Adapter for CbAd {
                 3 => opts!(CircuitBreakerLayer::tolerant()),
                 _ => opts!(CircuitBreakerLayer::builder()),
             };
-            let svc = if via_layer { b.build().layer(inner) } else { b.build().layer_fn(inner) };
+            let layer = b.build();
+            if sib {
+                let w2 = sibling_world();
+                w2.lock().unwrap().immediate = vec![GOut::Err(1); 8];
+                self.sib.push(sibling_traffic(layer.layer(Inner::new(&w2)), w2, 10));
+            }
+            let svc = if via_layer { layer.layer(inner) } else { layer.layer_fn(inner) };
             ctl = svc.boxed();
             if fb {
                 Box::new(svc.with_fallback(fallback))
@@ -186,6 +197,11 @@ impl Adapter for CbAd {
             } else {
                 opts!(CircuitBreakerLayer::builder()).failure_classifier(cls).build()
             };
+            if sib {
+                let w2 = sibling_world();
+                w2.lock().unwrap().immediate = vec![GOut::Err(1); 8];
+                self.sib.push(sibling_traffic(l.layer(Inner::new(&w2)), w2, 10));
+            }
             let svc = if via_layer { l.layer(inner) } else { l.layer_fn(inner) };
             ctl = svc.boxed();
             if fb {
@@ -360,5 +376,6 @@ impl Adapter for CbAd {
         self.h = None;
         self.ctl = None;
         self.parked.clear();
+        self.sib.clear();
     }
 }
